@@ -28,21 +28,234 @@ C02/Proofs.vos C02/Proofs.vok C02/Proofs.required_vos: C02/Proofs.v Common/Ops.v
 C02/Properties.vo C02/Properties.glob C02/Properties.v.beautified C02/Properties.required_vo: C02/Properties.v Common/Ops.vo Common/Vec.vo Common/VecLemmas.vo C07/Model.vo C07/Proofs.vo C01/Model.vo C01/Proofs.vo C02/Model.vo C02/Proofs.vo
 C02/Properties.vio: C02/Properties.v Common/Ops.vio Common/Vec.vio Common/VecLemmas.vio C07/Model.vio C07/Proofs.vio C01/Model.vio C01/Proofs.vio C02/Model.vio C02/Proofs.vio
 C02/Properties.vos C02/Properties.vok C02/Properties.required_vos: C02/Properties.v Common/Ops.vos Common/Vec.vos Common/VecLemmas.vos C07/Model.vos C07/Proofs.vos C01/Model.vos C01/Proofs.vos C02/Model.vos C02/Proofs.vos
+C04/Corr.vo C04/Corr.glob C04/Corr.v.beautified C04/Corr.required_vo: C04/Corr.v Common/Ops.vo Common/Vec.vo Common/Out.vo C04/Model.vo
+C04/Corr.vio: C04/Corr.v Common/Ops.vio Common/Vec.vio Common/Out.vio C04/Model.vio
+C04/Corr.vos C04/Corr.vok C04/Corr.required_vos: C04/Corr.v Common/Ops.vos Common/Vec.vos Common/Out.vos C04/Model.vos
+C04/Examples.vo C04/Examples.glob C04/Examples.v.beautified C04/Examples.required_vo: C04/Examples.v Common/Ops.vo Common/Vec.vo Common/VecLemmas.vo C04/Model.vo C04/Proofs.vo
+C04/Examples.vio: C04/Examples.v Common/Ops.vio Common/Vec.vio Common/VecLemmas.vio C04/Model.vio C04/Proofs.vio
+C04/Examples.vos C04/Examples.vok C04/Examples.required_vos: C04/Examples.v Common/Ops.vos Common/Vec.vos Common/VecLemmas.vos C04/Model.vos C04/Proofs.vos
+C04/Hom.vo C04/Hom.glob C04/Hom.v.beautified C04/Hom.required_vo: C04/Hom.v Common/Ops.vo Common/Vec.vo C04/Model.vo
+C04/Hom.vio: C04/Hom.v Common/Ops.vio Common/Vec.vio C04/Model.vio
+C04/Hom.vos C04/Hom.vok C04/Hom.required_vos: C04/Hom.v Common/Ops.vos Common/Vec.vos C04/Model.vos
+C04/Model.vo C04/Model.glob C04/Model.v.beautified C04/Model.required_vo: C04/Model.v Common/Ops.vo Common/Vec.vo
+C04/Model.vio: C04/Model.v Common/Ops.vio Common/Vec.vio
+C04/Model.vos C04/Model.vok C04/Model.required_vos: C04/Model.v Common/Ops.vos Common/Vec.vos
+C04/Proofs.vo C04/Proofs.glob C04/Proofs.v.beautified C04/Proofs.required_vo: C04/Proofs.v Common/Ops.vo Common/Vec.vo Common/VecLemmas.vo C04/Model.vo
+C04/Proofs.vio: C04/Proofs.v Common/Ops.vio Common/Vec.vio Common/VecLemmas.vio C04/Model.vio
+C04/Proofs.vos C04/Proofs.vok C04/Proofs.required_vos: C04/Proofs.v Common/Ops.vos Common/Vec.vos Common/VecLemmas.vos C04/Model.vos
+C04/Properties.vo C04/Properties.glob C04/Properties.v.beautified C04/Properties.required_vo: C04/Properties.v Common/Ops.vo Common/Vec.vo Common/VecLemmas.vo C04/Model.vo C04/Proofs.vo
+C04/Properties.vio: C04/Properties.v Common/Ops.vio Common/Vec.vio Common/VecLemmas.vio C04/Model.vio C04/Proofs.vio
+C04/Properties.vos C04/Properties.vok C04/Properties.required_vos: C04/Properties.v Common/Ops.vos Common/Vec.vos Common/VecLemmas.vos C04/Model.vos C04/Proofs.vos
+C05/Corr.vo C05/Corr.glob C05/Corr.v.beautified C05/Corr.required_vo: C05/Corr.v Common/Ops.vo C05/Model.vo
+C05/Corr.vio: C05/Corr.v Common/Ops.vio C05/Model.vio
+C05/Corr.vos C05/Corr.vok C05/Corr.required_vos: C05/Corr.v Common/Ops.vos C05/Model.vos
+C05/Examples.vo C05/Examples.glob C05/Examples.v.beautified C05/Examples.required_vo: C05/Examples.v Common/Ops.vo C05/Model.vo C05/Proofs.vo C05/ProofsF64.vo
+C05/Examples.vio: C05/Examples.v Common/Ops.vio C05/Model.vio C05/Proofs.vio C05/ProofsF64.vio
+C05/Examples.vos C05/Examples.vok C05/Examples.required_vos: C05/Examples.v Common/Ops.vos C05/Model.vos C05/Proofs.vos C05/ProofsF64.vos
+C05/ExamplesF64.vo C05/ExamplesF64.glob C05/ExamplesF64.v.beautified C05/ExamplesF64.required_vo: C05/ExamplesF64.v Common/Ops.vo C05/Model.vo C05/Proofs.vo C05/ProofsF64.vo
+C05/ExamplesF64.vio: C05/ExamplesF64.v Common/Ops.vio C05/Model.vio C05/Proofs.vio C05/ProofsF64.vio
+C05/ExamplesF64.vos C05/ExamplesF64.vok C05/ExamplesF64.required_vos: C05/ExamplesF64.v Common/Ops.vos C05/Model.vos C05/Proofs.vos C05/ProofsF64.vos
+C05/Model.vo C05/Model.glob C05/Model.v.beautified C05/Model.required_vo: C05/Model.v Common/Ops.vo
+C05/Model.vio: C05/Model.v Common/Ops.vio
+C05/Model.vos C05/Model.vok C05/Model.required_vos: C05/Model.v Common/Ops.vos
+C05/Proofs.vo C05/Proofs.glob C05/Proofs.v.beautified C05/Proofs.required_vo: C05/Proofs.v Common/Ops.vo C05/Model.vo
+C05/Proofs.vio: C05/Proofs.v Common/Ops.vio C05/Model.vio
+C05/Proofs.vos C05/Proofs.vok C05/Proofs.required_vos: C05/Proofs.v Common/Ops.vos C05/Model.vos
+C05/ProofsF64.vo C05/ProofsF64.glob C05/ProofsF64.v.beautified C05/ProofsF64.required_vo: C05/ProofsF64.v Common/Ops.vo C05/Model.vo C05/Proofs.vo
+C05/ProofsF64.vio: C05/ProofsF64.v Common/Ops.vio C05/Model.vio C05/Proofs.vio
+C05/ProofsF64.vos C05/ProofsF64.vok C05/ProofsF64.required_vos: C05/ProofsF64.v Common/Ops.vos C05/Model.vos C05/Proofs.vos
+C05/Properties.vo C05/Properties.glob C05/Properties.v.beautified C05/Properties.required_vo: C05/Properties.v Common/Ops.vo C05/Model.vo C05/Proofs.vo C05/ProofsF64.vo
+C05/Properties.vio: C05/Properties.v Common/Ops.vio C05/Model.vio C05/Proofs.vio C05/ProofsF64.vio
+C05/Properties.vos C05/Properties.vok C05/Properties.required_vos: C05/Properties.v Common/Ops.vos C05/Model.vos C05/Proofs.vos C05/ProofsF64.vos
+C06/Analysis.vo C06/Analysis.glob C06/Analysis.v.beautified C06/Analysis.required_vo: C06/Analysis.v Common/Ops.vo C06/Model.vo C06/Proofs.vo
+C06/Analysis.vio: C06/Analysis.v Common/Ops.vio C06/Model.vio C06/Proofs.vio
+C06/Analysis.vos C06/Analysis.vok C06/Analysis.required_vos: C06/Analysis.v Common/Ops.vos C06/Model.vos C06/Proofs.vos
+C06/Examples.vo C06/Examples.glob C06/Examples.v.beautified C06/Examples.required_vo: C06/Examples.v Common/Ops.vo C06/Model.vo C06/Proofs.vo
+C06/Examples.vio: C06/Examples.v Common/Ops.vio C06/Model.vio C06/Proofs.vio
+C06/Examples.vos C06/Examples.vok C06/Examples.required_vos: C06/Examples.v Common/Ops.vos C06/Model.vos C06/Proofs.vos
+C06/Model.vo C06/Model.glob C06/Model.v.beautified C06/Model.required_vo: C06/Model.v Common/Ops.vo
+C06/Model.vio: C06/Model.v Common/Ops.vio
+C06/Model.vos C06/Model.vok C06/Model.required_vos: C06/Model.v Common/Ops.vos
+C06/Proofs.vo C06/Proofs.glob C06/Proofs.v.beautified C06/Proofs.required_vo: C06/Proofs.v Common/Ops.vo C06/Model.vo
+C06/Proofs.vio: C06/Proofs.v Common/Ops.vio C06/Model.vio
+C06/Proofs.vos C06/Proofs.vok C06/Proofs.required_vos: C06/Proofs.v Common/Ops.vos C06/Model.vos
+C06/Properties.vo C06/Properties.glob C06/Properties.v.beautified C06/Properties.required_vo: C06/Properties.v Common/Ops.vo C06/Model.vo C06/Proofs.vo
+C06/Properties.vio: C06/Properties.v Common/Ops.vio C06/Model.vio C06/Proofs.vio
+C06/Properties.vos C06/Properties.vok C06/Properties.required_vos: C06/Properties.v Common/Ops.vos C06/Model.vos C06/Proofs.vos
 C07/Corr.vo C07/Corr.glob C07/Corr.v.beautified C07/Corr.required_vo: C07/Corr.v Common/Ops.vo Common/Vec.vo Common/Out.vo C07/Model.vo
 C07/Corr.vio: C07/Corr.v Common/Ops.vio Common/Vec.vio Common/Out.vio C07/Model.vio
 C07/Corr.vos C07/Corr.vok C07/Corr.required_vos: C07/Corr.v Common/Ops.vos Common/Vec.vos Common/Out.vos C07/Model.vos
 C07/Examples.vo C07/Examples.glob C07/Examples.v.beautified C07/Examples.required_vo: C07/Examples.v Common/Ops.vo Common/Vec.vo Common/VecLemmas.vo C07/Model.vo C07/Proofs.vo
 C07/Examples.vio: C07/Examples.v Common/Ops.vio Common/Vec.vio Common/VecLemmas.vio C07/Model.vio C07/Proofs.vio
 C07/Examples.vos C07/Examples.vok C07/Examples.required_vos: C07/Examples.v Common/Ops.vos Common/Vec.vos Common/VecLemmas.vos C07/Model.vos C07/Proofs.vos
+C07/Hom.vo C07/Hom.glob C07/Hom.v.beautified C07/Hom.required_vo: C07/Hom.v Common/Ops.vo Common/Vec.vo C07/Model.vo
+C07/Hom.vio: C07/Hom.v Common/Ops.vio Common/Vec.vio C07/Model.vio
+C07/Hom.vos C07/Hom.vok C07/Hom.required_vos: C07/Hom.v Common/Ops.vos Common/Vec.vos C07/Model.vos
 C07/Model.vo C07/Model.glob C07/Model.v.beautified C07/Model.required_vo: C07/Model.v Common/Ops.vo Common/Vec.vo
 C07/Model.vio: C07/Model.v Common/Ops.vio Common/Vec.vio
 C07/Model.vos C07/Model.vok C07/Model.required_vos: C07/Model.v Common/Ops.vos Common/Vec.vos
 C07/Proofs.vo C07/Proofs.glob C07/Proofs.v.beautified C07/Proofs.required_vo: C07/Proofs.v Common/Ops.vo Common/Vec.vo Common/VecLemmas.vo C07/Model.vo
 C07/Proofs.vio: C07/Proofs.v Common/Ops.vio Common/Vec.vio Common/VecLemmas.vio C07/Model.vio
 C07/Proofs.vos C07/Proofs.vok C07/Proofs.required_vos: C07/Proofs.v Common/Ops.vos Common/Vec.vos Common/VecLemmas.vos C07/Model.vos
-C07/Properties.vo C07/Properties.glob C07/Properties.v.beautified C07/Properties.required_vo: C07/Properties.v Common/Ops.vo Common/Vec.vo Common/VecLemmas.vo C07/Model.vo C07/Proofs.vo
-C07/Properties.vio: C07/Properties.v Common/Ops.vio Common/Vec.vio Common/VecLemmas.vio C07/Model.vio C07/Proofs.vio
-C07/Properties.vos C07/Properties.vok C07/Properties.required_vos: C07/Properties.v Common/Ops.vos Common/Vec.vos Common/VecLemmas.vos C07/Model.vos C07/Proofs.vos
+C07/Properties.vo C07/Properties.glob C07/Properties.v.beautified C07/Properties.required_vo: C07/Properties.v Common/Ops.vo Common/Vec.vo Common/VecLemmas.vo C07/Model.vo C07/Proofs.vo C07/Hom.vo
+C07/Properties.vio: C07/Properties.v Common/Ops.vio Common/Vec.vio Common/VecLemmas.vio C07/Model.vio C07/Proofs.vio C07/Hom.vio
+C07/Properties.vos C07/Properties.vok C07/Properties.required_vos: C07/Properties.v Common/Ops.vos Common/Vec.vos Common/VecLemmas.vos C07/Model.vos C07/Proofs.vos C07/Hom.vos
+C08/Corr.vo C08/Corr.glob C08/Corr.v.beautified C08/Corr.required_vo: C08/Corr.v Common/Ops.vo Common/Vec.vo Common/Out.vo C07/Model.vo C08/Model.vo
+C08/Corr.vio: C08/Corr.v Common/Ops.vio Common/Vec.vio Common/Out.vio C07/Model.vio C08/Model.vio
+C08/Corr.vos C08/Corr.vok C08/Corr.required_vos: C08/Corr.v Common/Ops.vos Common/Vec.vos Common/Out.vos C07/Model.vos C08/Model.vos
+C08/Examples.vo C08/Examples.glob C08/Examples.v.beautified C08/Examples.required_vo: C08/Examples.v Common/Ops.vo Common/Vec.vo Common/VecLemmas.vo C07/Model.vo C08/Model.vo C08/Proofs.vo
+C08/Examples.vio: C08/Examples.v Common/Ops.vio Common/Vec.vio Common/VecLemmas.vio C07/Model.vio C08/Model.vio C08/Proofs.vio
+C08/Examples.vos C08/Examples.vok C08/Examples.required_vos: C08/Examples.v Common/Ops.vos Common/Vec.vos Common/VecLemmas.vos C07/Model.vos C08/Model.vos C08/Proofs.vos
+C08/Model.vo C08/Model.glob C08/Model.v.beautified C08/Model.required_vo: C08/Model.v Common/Ops.vo Common/Vec.vo C07/Model.vo
+C08/Model.vio: C08/Model.v Common/Ops.vio Common/Vec.vio C07/Model.vio
+C08/Model.vos C08/Model.vok C08/Model.required_vos: C08/Model.v Common/Ops.vos Common/Vec.vos C07/Model.vos
+C08/Proofs.vo C08/Proofs.glob C08/Proofs.v.beautified C08/Proofs.required_vo: C08/Proofs.v Common/Ops.vo Common/Vec.vo Common/VecLemmas.vo C07/Model.vo C08/Model.vo
+C08/Proofs.vio: C08/Proofs.v Common/Ops.vio Common/Vec.vio Common/VecLemmas.vio C07/Model.vio C08/Model.vio
+C08/Proofs.vos C08/Proofs.vok C08/Proofs.required_vos: C08/Proofs.v Common/Ops.vos Common/Vec.vos Common/VecLemmas.vos C07/Model.vos C08/Model.vos
+C08/Properties.vo C08/Properties.glob C08/Properties.v.beautified C08/Properties.required_vo: C08/Properties.v Common/Ops.vo Common/Vec.vo Common/VecLemmas.vo C07/Model.vo C08/Model.vo C08/Proofs.vo
+C08/Properties.vio: C08/Properties.v Common/Ops.vio Common/Vec.vio Common/VecLemmas.vio C07/Model.vio C08/Model.vio C08/Proofs.vio
+C08/Properties.vos C08/Properties.vok C08/Properties.required_vos: C08/Properties.v Common/Ops.vos Common/Vec.vos Common/VecLemmas.vos C07/Model.vos C08/Model.vos C08/Proofs.vos
+C13/Bridge.vo C13/Bridge.glob C13/Bridge.v.beautified C13/Bridge.required_vo: C13/Bridge.v Common/Ops.vo Common/Vec.vo C13/Model.vo
+C13/Bridge.vio: C13/Bridge.v Common/Ops.vio Common/Vec.vio C13/Model.vio
+C13/Bridge.vos C13/Bridge.vok C13/Bridge.required_vos: C13/Bridge.v Common/Ops.vos Common/Vec.vos C13/Model.vos
+C13/Corr.vo C13/Corr.glob C13/Corr.v.beautified C13/Corr.required_vo: C13/Corr.v Common/Ops.vo Common/Vec.vo Common/Out.vo C13/Model.vo
+C13/Corr.vio: C13/Corr.v Common/Ops.vio Common/Vec.vio Common/Out.vio C13/Model.vio
+C13/Corr.vos C13/Corr.vok C13/Corr.required_vos: C13/Corr.v Common/Ops.vos Common/Vec.vos Common/Out.vos C13/Model.vos
+C13/Examples.vo C13/Examples.glob C13/Examples.v.beautified C13/Examples.required_vo: C13/Examples.v Common/Ops.vo Common/Vec.vo C13/Model.vo C13/Proofs.vo
+C13/Examples.vio: C13/Examples.v Common/Ops.vio Common/Vec.vio C13/Model.vio C13/Proofs.vio
+C13/Examples.vos C13/Examples.vok C13/Examples.required_vos: C13/Examples.v Common/Ops.vos Common/Vec.vos C13/Model.vos C13/Proofs.vos
+C13/Model.vo C13/Model.glob C13/Model.v.beautified C13/Model.required_vo: C13/Model.v Common/Ops.vo Common/Vec.vo
+C13/Model.vio: C13/Model.v Common/Ops.vio Common/Vec.vio
+C13/Model.vos C13/Model.vok C13/Model.required_vos: C13/Model.v Common/Ops.vos Common/Vec.vos
+C13/Proofs.vo C13/Proofs.glob C13/Proofs.v.beautified C13/Proofs.required_vo: C13/Proofs.v Common/Ops.vo Common/Vec.vo Common/VecLemmas.vo C13/Model.vo
+C13/Proofs.vio: C13/Proofs.v Common/Ops.vio Common/Vec.vio Common/VecLemmas.vio C13/Model.vio
+C13/Proofs.vos C13/Proofs.vok C13/Proofs.required_vos: C13/Proofs.v Common/Ops.vos Common/Vec.vos Common/VecLemmas.vos C13/Model.vos
+C13/Properties.vo C13/Properties.glob C13/Properties.v.beautified C13/Properties.required_vo: C13/Properties.v Common/Ops.vo Common/Vec.vo C13/Model.vo C13/Proofs.vo
+C13/Properties.vio: C13/Properties.v Common/Ops.vio Common/Vec.vio C13/Model.vio C13/Proofs.vio
+C13/Properties.vos C13/Properties.vok C13/Properties.required_vos: C13/Properties.v Common/Ops.vos Common/Vec.vos C13/Model.vos C13/Proofs.vos
+C14/Analysis.vo C14/Analysis.glob C14/Analysis.v.beautified C14/Analysis.required_vo: C14/Analysis.v C14/Model.vo
+C14/Analysis.vio: C14/Analysis.v C14/Model.vio
+C14/Analysis.vos C14/Analysis.vok C14/Analysis.required_vos: C14/Analysis.v C14/Model.vos
+C14/Corr.vo C14/Corr.glob C14/Corr.v.beautified C14/Corr.required_vo: C14/Corr.v Common/Ops.vo Common/Vec.vo Common/Out.vo C14/Model.vo
+C14/Corr.vio: C14/Corr.v Common/Ops.vio Common/Vec.vio Common/Out.vio C14/Model.vio
+C14/Corr.vos C14/Corr.vok C14/Corr.required_vos: C14/Corr.v Common/Ops.vos Common/Vec.vos Common/Out.vos C14/Model.vos
+C14/Enclose.vo C14/Enclose.glob C14/Enclose.v.beautified C14/Enclose.required_vo: C14/Enclose.v C14/Model.vo C14/Analysis.vo
+C14/Enclose.vio: C14/Enclose.v C14/Model.vio C14/Analysis.vio
+C14/Enclose.vos C14/Enclose.vok C14/Enclose.required_vos: C14/Enclose.v C14/Model.vos C14/Analysis.vos
+C14/Examples.vo C14/Examples.glob C14/Examples.v.beautified C14/Examples.required_vo: C14/Examples.v Common/Ops.vo Common/Vec.vo C14/Model.vo C14/Proofs.vo C14/Analysis.vo
+C14/Examples.vio: C14/Examples.v Common/Ops.vio Common/Vec.vio C14/Model.vio C14/Proofs.vio C14/Analysis.vio
+C14/Examples.vos C14/Examples.vok C14/Examples.required_vos: C14/Examples.v Common/Ops.vos Common/Vec.vos C14/Model.vos C14/Proofs.vos C14/Analysis.vos
+C14/Model.vo C14/Model.glob C14/Model.v.beautified C14/Model.required_vo: C14/Model.v Common/Ops.vo Common/Vec.vo
+C14/Model.vio: C14/Model.v Common/Ops.vio Common/Vec.vio
+C14/Model.vos C14/Model.vok C14/Model.required_vos: C14/Model.v Common/Ops.vos Common/Vec.vos
+C14/Proofs.vo C14/Proofs.glob C14/Proofs.v.beautified C14/Proofs.required_vo: C14/Proofs.v Common/Ops.vo Common/Vec.vo C14/Model.vo
+C14/Proofs.vio: C14/Proofs.v Common/Ops.vio Common/Vec.vio C14/Model.vio
+C14/Proofs.vos C14/Proofs.vok C14/Proofs.required_vos: C14/Proofs.v Common/Ops.vos Common/Vec.vos C14/Model.vos
+C14/Properties.vo C14/Properties.glob C14/Properties.v.beautified C14/Properties.required_vo: C14/Properties.v Common/Ops.vo Common/Vec.vo C14/Model.vo C14/Proofs.vo
+C14/Properties.vio: C14/Properties.v Common/Ops.vio Common/Vec.vio C14/Model.vio C14/Proofs.vio
+C14/Properties.vos C14/Properties.vok C14/Properties.required_vos: C14/Properties.v Common/Ops.vos Common/Vec.vos C14/Model.vos C14/Proofs.vos
+C14/PropertiesAnalysis.vo C14/PropertiesAnalysis.glob C14/PropertiesAnalysis.v.beautified C14/PropertiesAnalysis.required_vo: C14/PropertiesAnalysis.v Common/Ops.vo C14/Model.vo C14/Proofs.vo C14/Analysis.vo
+C14/PropertiesAnalysis.vio: C14/PropertiesAnalysis.v Common/Ops.vio C14/Model.vio C14/Proofs.vio C14/Analysis.vio
+C14/PropertiesAnalysis.vos C14/PropertiesAnalysis.vok C14/PropertiesAnalysis.required_vos: C14/PropertiesAnalysis.v Common/Ops.vos C14/Model.vos C14/Proofs.vos C14/Analysis.vos
+C15/Analysis.vo C15/Analysis.glob C15/Analysis.v.beautified C15/Analysis.required_vo: C15/Analysis.v C15/Model.vo C15/Proofs.vo
+C15/Analysis.vio: C15/Analysis.v C15/Model.vio C15/Proofs.vio
+C15/Analysis.vos C15/Analysis.vok C15/Analysis.required_vos: C15/Analysis.v C15/Model.vos C15/Proofs.vos
+C15/Bisection.vo C15/Bisection.glob C15/Bisection.v.beautified C15/Bisection.required_vo: C15/Bisection.v Common/Ops.vo Common/Vec.vo C15/Model.vo
+C15/Bisection.vio: C15/Bisection.v Common/Ops.vio Common/Vec.vio C15/Model.vio
+C15/Bisection.vos C15/Bisection.vok C15/Bisection.required_vos: C15/Bisection.v Common/Ops.vos Common/Vec.vos C15/Model.vos
+C15/Capacitance.vo C15/Capacitance.glob C15/Capacitance.v.beautified C15/Capacitance.required_vo: C15/Capacitance.v C15/Model.vo C15/Proofs.vo C15/Analysis.vo C15/Geometry.vo
+C15/Capacitance.vio: C15/Capacitance.v C15/Model.vio C15/Proofs.vio C15/Analysis.vio C15/Geometry.vio
+C15/Capacitance.vos C15/Capacitance.vok C15/Capacitance.required_vos: C15/Capacitance.v C15/Model.vos C15/Proofs.vos C15/Analysis.vos C15/Geometry.vos
+C15/Corr.vo C15/Corr.glob C15/Corr.v.beautified C15/Corr.required_vo: C15/Corr.v Common/Ops.vo Common/Vec.vo C15/Model.vo
+C15/Corr.vio: C15/Corr.v Common/Ops.vio Common/Vec.vio C15/Model.vio
+C15/Corr.vos C15/Corr.vok C15/Corr.required_vos: C15/Corr.v Common/Ops.vos Common/Vec.vos C15/Model.vos
+C15/Enclose.vo C15/Enclose.glob C15/Enclose.v.beautified C15/Enclose.required_vo: C15/Enclose.v C15/Model.vo
+C15/Enclose.vio: C15/Enclose.v C15/Model.vio
+C15/Enclose.vos C15/Enclose.vok C15/Enclose.required_vos: C15/Enclose.v C15/Model.vos
+C15/Examples.vo C15/Examples.glob C15/Examples.v.beautified C15/Examples.required_vo: C15/Examples.v Common/Ops.vo Common/Vec.vo C15/Model.vo C15/Proofs.vo C15/Bisection.vo C15/Analysis.vo
+C15/Examples.vio: C15/Examples.v Common/Ops.vio Common/Vec.vio C15/Model.vio C15/Proofs.vio C15/Bisection.vio C15/Analysis.vio
+C15/Examples.vos C15/Examples.vok C15/Examples.required_vos: C15/Examples.v Common/Ops.vos Common/Vec.vos C15/Model.vos C15/Proofs.vos C15/Bisection.vos C15/Analysis.vos
+C15/Geometry.vo C15/Geometry.glob C15/Geometry.v.beautified C15/Geometry.required_vo: C15/Geometry.v C15/Model.vo C15/Proofs.vo C15/Analysis.vo
+C15/Geometry.vio: C15/Geometry.v C15/Model.vio C15/Proofs.vio C15/Analysis.vio
+C15/Geometry.vos C15/Geometry.vok C15/Geometry.required_vos: C15/Geometry.v C15/Model.vos C15/Proofs.vos C15/Analysis.vos
+C15/Model.vo C15/Model.glob C15/Model.v.beautified C15/Model.required_vo: C15/Model.v Common/Ops.vo Common/Vec.vo
+C15/Model.vio: C15/Model.v Common/Ops.vio Common/Vec.vio
+C15/Model.vos C15/Model.vok C15/Model.required_vos: C15/Model.v Common/Ops.vos Common/Vec.vos
+C15/Proofs.vo C15/Proofs.glob C15/Proofs.v.beautified C15/Proofs.required_vo: C15/Proofs.v Common/Ops.vo Common/Vec.vo C15/Model.vo
+C15/Proofs.vio: C15/Proofs.v Common/Ops.vio Common/Vec.vio C15/Model.vio
+C15/Proofs.vos C15/Proofs.vok C15/Proofs.required_vos: C15/Proofs.v Common/Ops.vos Common/Vec.vos C15/Model.vos
+C15/Properties.vo C15/Properties.glob C15/Properties.v.beautified C15/Properties.required_vo: C15/Properties.v Common/Ops.vo Common/Vec.vo C15/Model.vo C15/Proofs.vo C15/Bisection.vo C15/Analysis.vo C15/Geometry.vo C15/Capacitance.vo
+C15/Properties.vio: C15/Properties.v Common/Ops.vio Common/Vec.vio C15/Model.vio C15/Proofs.vio C15/Bisection.vio C15/Analysis.vio C15/Geometry.vio C15/Capacitance.vio
+C15/Properties.vos C15/Properties.vok C15/Properties.required_vos: C15/Properties.v Common/Ops.vos Common/Vec.vos C15/Model.vos C15/Proofs.vos C15/Bisection.vos C15/Analysis.vos C15/Geometry.vos C15/Capacitance.vos
+C17/Corr.vo C17/Corr.glob C17/Corr.v.beautified C17/Corr.required_vo: C17/Corr.v Common/Ops.vo Common/Vec.vo Common/Out.vo C17/Model.vo
+C17/Corr.vio: C17/Corr.v Common/Ops.vio Common/Vec.vio Common/Out.vio C17/Model.vio
+C17/Corr.vos C17/Corr.vok C17/Corr.required_vos: C17/Corr.v Common/Ops.vos Common/Vec.vos Common/Out.vos C17/Model.vos
+C17/Examples.vo C17/Examples.glob C17/Examples.v.beautified C17/Examples.required_vo: C17/Examples.v Common/Ops.vo Common/Vec.vo Common/VecLemmas.vo C17/Model.vo C17/Proofs.vo C17/Hom.vo
+C17/Examples.vio: C17/Examples.v Common/Ops.vio Common/Vec.vio Common/VecLemmas.vio C17/Model.vio C17/Proofs.vio C17/Hom.vio
+C17/Examples.vos C17/Examples.vok C17/Examples.required_vos: C17/Examples.v Common/Ops.vos Common/Vec.vos Common/VecLemmas.vos C17/Model.vos C17/Proofs.vos C17/Hom.vos
+C17/Hom.vo C17/Hom.glob C17/Hom.v.beautified C17/Hom.required_vo: C17/Hom.v Common/Ops.vo Common/Vec.vo Common/VecLemmas.vo C17/Model.vo C17/Proofs.vo
+C17/Hom.vio: C17/Hom.v Common/Ops.vio Common/Vec.vio Common/VecLemmas.vio C17/Model.vio C17/Proofs.vio
+C17/Hom.vos C17/Hom.vok C17/Hom.required_vos: C17/Hom.v Common/Ops.vos Common/Vec.vos Common/VecLemmas.vos C17/Model.vos C17/Proofs.vos
+C17/Model.vo C17/Model.glob C17/Model.v.beautified C17/Model.required_vo: C17/Model.v Common/Ops.vo Common/Vec.vo
+C17/Model.vio: C17/Model.v Common/Ops.vio Common/Vec.vio
+C17/Model.vos C17/Model.vok C17/Model.required_vos: C17/Model.v Common/Ops.vos Common/Vec.vos
+C17/Proofs.vo C17/Proofs.glob C17/Proofs.v.beautified C17/Proofs.required_vo: C17/Proofs.v Common/Ops.vo Common/Vec.vo Common/VecLemmas.vo C17/Model.vo
+C17/Proofs.vio: C17/Proofs.v Common/Ops.vio Common/Vec.vio Common/VecLemmas.vio C17/Model.vio
+C17/Proofs.vos C17/Proofs.vok C17/Proofs.required_vos: C17/Proofs.v Common/Ops.vos Common/Vec.vos Common/VecLemmas.vos C17/Model.vos
+C17/Properties.vo C17/Properties.glob C17/Properties.v.beautified C17/Properties.required_vo: C17/Properties.v Common/Ops.vo Common/Vec.vo Common/VecLemmas.vo C17/Model.vo C17/Proofs.vo C17/Hom.vo
+C17/Properties.vio: C17/Properties.v Common/Ops.vio Common/Vec.vio Common/VecLemmas.vio C17/Model.vio C17/Proofs.vio C17/Hom.vio
+C17/Properties.vos C17/Properties.vok C17/Properties.required_vos: C17/Properties.v Common/Ops.vos Common/Vec.vos Common/VecLemmas.vos C17/Model.vos C17/Proofs.vos C17/Hom.vos
+C18/Corr.vo C18/Corr.glob C18/Corr.v.beautified C18/Corr.required_vo: C18/Corr.v Common/Ops.vo Common/Vec.vo Common/VecLemmas.vo C07/Model.vo C18/Model.vo C18/Proofs.vo Common/Out.vo C07/Corr.vo C05/Model.vo C05/Corr.vo
+C18/Corr.vio: C18/Corr.v Common/Ops.vio Common/Vec.vio Common/VecLemmas.vio C07/Model.vio C18/Model.vio C18/Proofs.vio Common/Out.vio C07/Corr.vio C05/Model.vio C05/Corr.vio
+C18/Corr.vos C18/Corr.vok C18/Corr.required_vos: C18/Corr.v Common/Ops.vos Common/Vec.vos Common/VecLemmas.vos C07/Model.vos C18/Model.vos C18/Proofs.vos Common/Out.vos C07/Corr.vos C05/Model.vos C05/Corr.vos
+C18/Examples.vo C18/Examples.glob C18/Examples.v.beautified C18/Examples.required_vo: C18/Examples.v Common/Ops.vo Common/Vec.vo Common/VecLemmas.vo C07/Model.vo C07/Proofs.vo C05/Model.vo C18/Model.vo C18/Proofs.vo
+C18/Examples.vio: C18/Examples.v Common/Ops.vio Common/Vec.vio Common/VecLemmas.vio C07/Model.vio C07/Proofs.vio C05/Model.vio C18/Model.vio C18/Proofs.vio
+C18/Examples.vos C18/Examples.vok C18/Examples.required_vos: C18/Examples.v Common/Ops.vos Common/Vec.vos Common/VecLemmas.vos C07/Model.vos C07/Proofs.vos C05/Model.vos C18/Model.vos C18/Proofs.vos
+C18/Hom.vo C18/Hom.glob C18/Hom.v.beautified C18/Hom.required_vo: C18/Hom.v Common/Ops.vo Common/Vec.vo C07/Model.vo C18/Model.vo
+C18/Hom.vio: C18/Hom.v Common/Ops.vio Common/Vec.vio C07/Model.vio C18/Model.vio
+C18/Hom.vos C18/Hom.vok C18/Hom.required_vos: C18/Hom.v Common/Ops.vos Common/Vec.vos C07/Model.vos C18/Model.vos
+C18/Model.vo C18/Model.glob C18/Model.v.beautified C18/Model.required_vo: C18/Model.v Common/Ops.vo Common/Vec.vo Common/VecLemmas.vo C07/Model.vo C05/Model.vo
+C18/Model.vio: C18/Model.v Common/Ops.vio Common/Vec.vio Common/VecLemmas.vio C07/Model.vio C05/Model.vio
+C18/Model.vos C18/Model.vok C18/Model.required_vos: C18/Model.v Common/Ops.vos Common/Vec.vos Common/VecLemmas.vos C07/Model.vos C05/Model.vos
+C18/Proofs.vo C18/Proofs.glob C18/Proofs.v.beautified C18/Proofs.required_vo: C18/Proofs.v Common/Ops.vo Common/Vec.vo Common/VecLemmas.vo C07/Model.vo C07/Proofs.vo C05/Model.vo C05/Proofs.vo C18/Model.vo
+C18/Proofs.vio: C18/Proofs.v Common/Ops.vio Common/Vec.vio Common/VecLemmas.vio C07/Model.vio C07/Proofs.vio C05/Model.vio C05/Proofs.vio C18/Model.vio
+C18/Proofs.vos C18/Proofs.vok C18/Proofs.required_vos: C18/Proofs.v Common/Ops.vos Common/Vec.vos Common/VecLemmas.vos C07/Model.vos C07/Proofs.vos C05/Model.vos C05/Proofs.vos C18/Model.vos
+C18/Properties.vo C18/Properties.glob C18/Properties.v.beautified C18/Properties.required_vo: C18/Properties.v Common/Ops.vo Common/Vec.vo Common/VecLemmas.vo C07/Model.vo C07/Proofs.vo C05/Model.vo C18/Model.vo C18/Proofs.vo C18/Hom.vo
+C18/Properties.vio: C18/Properties.v Common/Ops.vio Common/Vec.vio Common/VecLemmas.vio C07/Model.vio C07/Proofs.vio C05/Model.vio C18/Model.vio C18/Proofs.vio C18/Hom.vio
+C18/Properties.vos C18/Properties.vok C18/Properties.required_vos: C18/Properties.v Common/Ops.vos Common/Vec.vos Common/VecLemmas.vos C07/Model.vos C07/Proofs.vos C05/Model.vos C18/Model.vos C18/Proofs.vos C18/Hom.vos
+C19/Bridge.vo C19/Bridge.glob C19/Bridge.v.beautified C19/Bridge.required_vo: C19/Bridge.v Common/Ops.vo Common/Vec.vo C19/Model.vo
+C19/Bridge.vio: C19/Bridge.v Common/Ops.vio Common/Vec.vio C19/Model.vio
+C19/Bridge.vos C19/Bridge.vok C19/Bridge.required_vos: C19/Bridge.v Common/Ops.vos Common/Vec.vos C19/Model.vos
+C19/Corr.vo C19/Corr.glob C19/Corr.v.beautified C19/Corr.required_vo: C19/Corr.v Common/Ops.vo Common/Vec.vo Common/Out.vo C19/Model.vo
+C19/Corr.vio: C19/Corr.v Common/Ops.vio Common/Vec.vio Common/Out.vio C19/Model.vio
+C19/Corr.vos C19/Corr.vok C19/Corr.required_vos: C19/Corr.v Common/Ops.vos Common/Vec.vos Common/Out.vos C19/Model.vos
+C19/Examples.vo C19/Examples.glob C19/Examples.v.beautified C19/Examples.required_vo: C19/Examples.v Common/Ops.vo Common/Vec.vo C19/Model.vo C19/Proofs.vo C19/Corr.vo
+C19/Examples.vio: C19/Examples.v Common/Ops.vio Common/Vec.vio C19/Model.vio C19/Proofs.vio C19/Corr.vio
+C19/Examples.vos C19/Examples.vok C19/Examples.required_vos: C19/Examples.v Common/Ops.vos Common/Vec.vos C19/Model.vos C19/Proofs.vos C19/Corr.vos
+C19/Model.vo C19/Model.glob C19/Model.v.beautified C19/Model.required_vo: C19/Model.v Common/Ops.vo Common/Vec.vo
+C19/Model.vio: C19/Model.v Common/Ops.vio Common/Vec.vio
+C19/Model.vos C19/Model.vok C19/Model.required_vos: C19/Model.v Common/Ops.vos Common/Vec.vos
+C19/Proofs.vo C19/Proofs.glob C19/Proofs.v.beautified C19/Proofs.required_vo: C19/Proofs.v Common/Ops.vo Common/Vec.vo C19/Model.vo
+C19/Proofs.vio: C19/Proofs.v Common/Ops.vio Common/Vec.vio C19/Model.vio
+C19/Proofs.vos C19/Proofs.vok C19/Proofs.required_vos: C19/Proofs.v Common/Ops.vos Common/Vec.vos C19/Model.vos
+C19/Properties.vo C19/Properties.glob C19/Properties.v.beautified C19/Properties.required_vo: C19/Properties.v Common/Ops.vo Common/Vec.vo C19/Model.vo C19/Proofs.vo C19/Bridge.vo
+C19/Properties.vio: C19/Properties.v Common/Ops.vio Common/Vec.vio C19/Model.vio C19/Proofs.vio C19/Bridge.vio
+C19/Properties.vos C19/Properties.vok C19/Properties.required_vos: C19/Properties.v Common/Ops.vos Common/Vec.vos C19/Model.vos C19/Proofs.vos C19/Bridge.vos
+C20/Corr.vo C20/Corr.glob C20/Corr.v.beautified C20/Corr.required_vo: C20/Corr.v C20/Model.vo
+C20/Corr.vio: C20/Corr.v C20/Model.vio
+C20/Corr.vos C20/Corr.vok C20/Corr.required_vos: C20/Corr.v C20/Model.vos
+C20/Examples.vo C20/Examples.glob C20/Examples.v.beautified C20/Examples.required_vo: C20/Examples.v C20/Model.vo C20/Proofs.vo C20/Properties.vo
+C20/Examples.vio: C20/Examples.v C20/Model.vio C20/Proofs.vio C20/Properties.vio
+C20/Examples.vos C20/Examples.vok C20/Examples.required_vos: C20/Examples.v C20/Model.vos C20/Proofs.vos C20/Properties.vos
+C20/Model.vo C20/Model.glob C20/Model.v.beautified C20/Model.required_vo: C20/Model.v 
+C20/Model.vio: C20/Model.v 
+C20/Model.vos C20/Model.vok C20/Model.required_vos: C20/Model.v 
+C20/Proofs.vo C20/Proofs.glob C20/Proofs.v.beautified C20/Proofs.required_vo: C20/Proofs.v C20/Model.vo
+C20/Proofs.vio: C20/Proofs.v C20/Model.vio
+C20/Proofs.vos C20/Proofs.vok C20/Proofs.required_vos: C20/Proofs.v C20/Model.vos
+C20/Properties.vo C20/Properties.glob C20/Properties.v.beautified C20/Properties.required_vo: C20/Properties.v C20/Model.vo C20/Proofs.vo
+C20/Properties.vio: C20/Properties.v C20/Model.vio C20/Proofs.vio
+C20/Properties.vos C20/Properties.vok C20/Properties.required_vos: C20/Properties.v C20/Model.vos C20/Proofs.vos
 Common/Ops.vo Common/Ops.glob Common/Ops.v.beautified Common/Ops.required_vo: Common/Ops.v 
 Common/Ops.vio: Common/Ops.v 
 Common/Ops.vos Common/Ops.vok Common/Ops.required_vos: Common/Ops.v 
